@@ -343,6 +343,7 @@ type PathSpec struct {
 	UsesFuncs     uint32
 	BothMissingEQ bool // contains ==/!= whose two operands are paths (reach probe)
 	LiteralLeft   bool // comparison written with the literal or $-path on the left
+	ForeignFunc   bool // ends in a function name outside the menu (unknown today)
 }
 
 func quoteName(k string, dbl bool) string {
@@ -891,6 +892,8 @@ func genPath(funcs uint32, trap bool, maxSteps, maxFuncs int) *PathSpec {
 	return genPathFor(nil, funcs, trap, maxSteps, maxFuncs)
 }
 
+var builtinLike = []string{"count", "sum", "avg", "min", "max", "median", "length", "size", "last", "sort", "keys", "values", "reverse", "unique", "distinct", "flatten", "len"}
+
 // genLongPath renders a very long but simple path (hundreds of steps): buffers of the parser
 // that grow with the path length are only exercised by those.
 func genLongPath() *PathSpec {
@@ -957,6 +960,14 @@ func genPathFor(doc interface{}, funcs uint32, trap bool, maxSteps, maxFuncs int
 		s = "$"
 	}
 	spec.Prefix = s
+	if maxFuncs > 0 && rn(60) == 59 {
+		// a function name the library might one day provide itself: today an unknown function
+		// (Parse fails); if a change adds built-ins, they get exercised
+		s += "." + pick(builtinLike) + "()"
+		spec.Text = s
+		spec.ForeignFunc = true
+		return spec
+	}
 	nf := 0
 	if maxFuncs > 0 {
 		nf = rn(maxFuncs + 1)
